@@ -1,15 +1,17 @@
 (* Model side of the wire probe (C06, C07, C10 reader half): same case lines, same output lines.
 
    case lines
-     msg <name> <cluster> <allow> <deny> <order> <keyhex> <valuehex>
-     vo  <name> <cluster> <allow> <deny> <order> <keyver> <group> <topic> <partition> <valver|T> <offset> <epoch> <metadata> <ts> <expire>
-     vm  <name> <cluster> <allow> <deny> <order> <group> <valver|T> <ptype> <generation> <protocol> <leader> <statets> <nmembers> {member}
+     msg <name> <cluster> <mode> <allow> <deny> <order> <keyhex> <valuehex>
+     vo  <name> <cluster> <mode> <allow> <deny> <order> <keyver> <group> <topic> <partition> <valver|T> <offset> <epoch> <metadata> <ts> <expire>
+     vm  <name> <cluster> <mode> <allow> <deny> <order> <group> <valver|T> <ptype> <generation> <protocol> <leader> <statets> <nmembers> {member}
          member := <id> <instance> <clientid> <host> <rebalance> <session> <subscription> <assignment>
          assignment := N | E | A <ver> <ntopics> {<topic> <nparts> {<part>}} <userdata>
      re  <allow> <deny> <grouphex>
-     c10m <name> <cluster> <a_set> <a_m> <d_set> <d_m> <order> <keyhex> <valuehex>     (second phase of the C10 reader cases: the four
+     c10m <name> <cluster> <mode> <a_set> <a_m> <d_set> <d_m> <order> <keyhex> <valuehex>     (second phase of the C10 reader cases: the four
           booleans are what the probe's real regexps answered for the message's group; see checks/c10_wire.py)
    <name> / <cluster>: the consumer module's own name and the cluster it is configured for (hex).
+   <mode>: S = the probe configures the module with viper.Set, T = from a TOML document (no difference for the model).
+   <allow> / <deny>: 0 = key absent, 1..6 = a pattern of the pool, 7 = key present with the empty string (= no list).
    strings: N = null, - = empty, else hex.  <allow>/<deny> index the pattern pool below (0 = not set).
 
    output lines
@@ -48,8 +50,10 @@ let pat_match (idx : int) (g : z list) : bool =
   | 6 -> List.mem 120 b                        (* x *)
   | _ -> failwith "drv_wire: pattern index"
 
+let is_set (idx : int) : bool = idx <> 0 && idx <> 7
+
 let accept (allow : int) (deny : int) (g : z list) : bool =
-  (allow = 0 || pat_match allow g) && not (deny <> 0 && pat_match deny g)
+  reader_accept (is_set allow) (is_set allow && pat_match allow g) (is_set deny) (is_set deny && pat_match deny g)
 
 let variant () : bool * bool =
   match Sys.getenv_opt "VERIF_WIRE_MODEL" with
@@ -76,6 +80,7 @@ let fmt_outcome (o : outcome_for) : string =
 
 let next_cfg t : reader_cfg =
   let name = bytes_of_hex (next t) in let cluster = bytes_of_hex (next t) in
+  let _mode = next t in
   { rc_name = name; rc_cluster = cluster }
 
 let process cfg allow deny key value order : string =
